@@ -26,8 +26,9 @@ def gen_peer(rng, svc):
     ports = list(dict.fromkeys(rng.choice([80, 8080, 0, 65535, 53]) for _ in range(rng.below(4))))
     attrs = {}
     for _ in range(rng.choice([0, 0, 1, 2, 3])):
-        k = rng.choice(["k", "key", "path", "Ļ", "a b", "x;y"])
-        attrs[k] = rng.choice([None, "", "v", "a=b", "é", "x" * 100])
+        import attrgen
+        k = rng.choice(["k", "key", "path", "Ļ", "a b", "x;y"]) if rng.chance(1, 2) else rng.choice(attrgen.WELL_KNOWN_KEYS)
+        attrs[k] = rng.choice([None, None, "", "1", "v", "a=b", "é", "x" * 100])
     return {"svc": psvc, "name": name, "ips": ips, "ports": ports, "attrs": attrs}
 
 
